@@ -27,7 +27,7 @@ func init() {
 		Assumptions: []string{"database clock = newest accepted timestamp (VirtualTime)", "a period that is not a multiple of the resolution must be rejected with an error", "don't-care: aggregates over nothing, x/0"},
 		Cases: func(tier string) int {
 			if tier == "quick" {
-				return 30
+				return 90
 			}
 			return 400
 		},
@@ -46,7 +46,7 @@ func init() {
 		Assumptions: []string{"database clock = newest accepted timestamp (VirtualTime)", "periods straddling a window edge are don't-care", "a query asOf before the table's own asOf may be refused with an error"},
 		Cases: func(tier string) int {
 			if tier == "quick" {
-				return 30
+				return 90
 			}
 			return 400
 		},
